@@ -67,6 +67,43 @@ Theorem C03_src_discard_after :
     src_discard_after Ev Act Ck H T D Name ls (Z.of_nat i) = Some (firstn (S i) ls).
 Proof. exact @src_discard_after_is_firstn. Qed.
 
+(* the hash chain (each log's previous hash is the hash of the log before it, the first one's is "") is kept by the GENERATED
+   commit and discard_after, hence by every sequence of them *)
+Theorem C03_src_commit_keeps_the_chain :
+  forall (Ev Act Ck H T D Name : Type) (H0 : H) (hashf : H -> cmd T Name -> list (T * Act * list Ev) -> H)
+         (ls ls' : list (oplog Ev Act Ck H T D Name)) c pls d,
+    chain_from Ev Act Ck H T D Name hashf H0 ls ->
+    src_commit Ev Act Ck H T D Name H0 hashf ls c pls d = Some ls' -> chain_from Ev Act Ck H T D Name hashf H0 ls'.
+Proof. exact @src_commit_keeps_chain. Qed.
+
+Theorem C03_src_discard_after_keeps_the_chain :
+  forall (Ev Act Ck H T D Name : Type) (H0 : H) (hashf : H -> cmd T Name -> list (T * Act * list Ev) -> H)
+         (ls ls' : list (oplog Ev Act Ck H T D Name)) (i : nat),
+    chain_from Ev Act Ck H T D Name hashf H0 ls ->
+    src_discard_after Ev Act Ck H T D Name ls (Z.of_nat i) = Some ls' -> chain_from Ev Act Ck H T D Name hashf H0 ls'.
+Proof. exact @src_discard_after_keeps_chain. Qed.
+
+Theorem C03_src_every_history_is_chained :
+  forall (Ev Act Ck H T D Name : Type) (H0 : H) (hashf : H -> cmd T Name -> list (T * Act * list Ev) -> H)
+         (os : list (hist_op Ev Act Ck T D Name)) (ls' : list (oplog Ev Act Ck H T D Name)),
+    src_hist_steps Ev Act Ck H T D Name H0 hashf [] os = Some ls' -> chain_from Ev Act Ck H T D Name hashf H0 ls'.
+Proof. intros Ev Act Ck H T D Name H0 hashf os ls'. apply src_hist_steps_keep_chain. exact I. Qed.
+
+(* rollback lands on the tip: after the generated discard_after(i) log i is the last log, the history has i+1 logs, log i's
+   hash is still located at i, and discarding after i again changes nothing *)
+Theorem C03_src_rollback_lands_on_the_tip :
+  forall (Ev Act Ck H T D Name : Type) (H0 : H) (hashf : H -> cmd T Name -> list (T * Act * list Ev) -> H) (H_eqb : H -> H -> bool),
+    (forall a b, H_eqb a b = true <-> a = b) ->
+    (forall p c x p' c' x', hashf p c x = hashf p' c' x' -> p = p') ->
+    (forall p c x, hashf p c x <> H0) ->
+    forall ls ls' : list (oplog Ev Act Ck H T D Name), chain_from Ev Act Ck H T D Name hashf H0 ls ->
+    forall i l, nth_error ls i = Some l ->
+      src_discard_after Ev Act Ck H T D Name ls (Z.of_nat i) = Some ls' ->
+      py_last ls' = Some l /\ length ls' = S i /\
+      src_get_hash_index Ev Act Ck H T D Name hashf H_eqb ls' (lhash Ev Act Ck H T D Name hashf l) = Some (Z.of_nat i) /\
+      src_discard_after Ev Act Ck H T D Name ls' (Z.of_nat i) = Some ls'.
+Proof. exact @src_discard_after_lands_on_tip. Qed.
+
 Print Assumptions C03_hash_locates_its_log.
 Print Assumptions C03_hash_index_sound.
 Print Assumptions C03_unknown_hash_is_refused.
@@ -76,3 +113,7 @@ Print Assumptions C03_src_last_events.
 Print Assumptions C03_src_current_checkpoint.
 Print Assumptions C03_src_commit.
 Print Assumptions C03_src_discard_after.
+Print Assumptions C03_src_commit_keeps_the_chain.
+Print Assumptions C03_src_discard_after_keeps_the_chain.
+Print Assumptions C03_src_every_history_is_chained.
+Print Assumptions C03_src_rollback_lands_on_the_tip.
